@@ -680,3 +680,10 @@ Example C15_try_in_callee_cooperating_defects :
    firstn 9 (snd (fst (xexec (xc_nn_tucker_hals_as (mut_initialize_tucker_nn 3 [] true) xc_active_set_nnls_mut) [] (env0 r7_hals_args, r7_heap)))) = r7_heap /\
    firstn 9 (snd (fst (xexec xc_nn_tucker_hals_active_set [0; 1; 0; 2] (env0 r7_hals_args, r7_heap)))) = r7_heap).
 Proof. exact (conj nn_tucker_hals_active_set_xsafe nn_tucker_hals_active_set_demo). Qed.
+
+(* the estimator class Tucker_NN with the order-generic non_negative_tucker body (round 6 had an opaque body for it) *)
+Theorem C15_nn_tucker_class_fit_frame : forall N sweeps normalize modes (self X : ref) (h0 : heap) (o : nat),
+  o < length h0 -> target self <> Some o ->
+  nth_error (snd (exec (sk_estimator_fit 1 (sk_nn_tucker_gen N sweeps normalize modes) 25) (env0 [self; X], h0))) o = nth_error h0 o.
+Proof. exact nn_tucker_class_fit_frame. Qed.
+Print Assumptions C15_nn_tucker_class_fit_frame.
